@@ -9,6 +9,7 @@ import XalanModel.C05.PIScanProofs
 import XalanModel.C05.Funnel
 import XalanModel.C05.TargetProofs
 import XalanModel.Generated.C05_Funnel
+import XalanModel.Generated.C05_Wiring
 /-!
 # C05 — the result does not depend on how source, stylesheet and output are supplied
 
@@ -477,6 +478,24 @@ theorem funnel_only_doTransform_calls_process :
 noticed; a new one is covered by the ∀ above) -/
 theorem funnel_table_complete :
     9 ≤ C05_Funnel.transformOverloads.length ∧ 6 ≤ C05_Funnel.capiEntries.length := by
+  decide
+
+/-! ## (iii'') every source form wires its DOMSupport to its liaison (table regenerated from the source) -/
+
+/-- Every `XalanParsedSource` / `XalanDocumentBuilder` / `XalanParsedSourceHelper` implementation that owns a DOMSupport
+object (holds it by value) tells it its parser liaison — through a constructor argument or a `setParserLiaison` call in
+a constructor body; the others are handed a caller's DOMSupport by reference.  (An unwired DOMSupport answers
+`getUnparsedEntityURI` with the empty string, so `unparsed-entity-uri()` would depend on the source form.) -/
+theorem source_dom_support_wired :
+    ∀ r ∈ C05_Wiring.rows, (!r.byValue || r.ctorLiaison || r.setCall) = true := by
+  decide
+
+/-- the table covers the five parsed-source / document-builder classes and the two helper classes; the four that own a
+DOMSupport are among them -/
+theorem source_dom_support_table_complete :
+    7 ≤ C05_Wiring.implementations.length ∧ 4 ≤ C05_Wiring.owners.length ∧
+    (∀ o ∈ C05_Wiring.owners, o ∈ C05_Wiring.implementations) ∧
+    (∀ o ∈ C05_Wiring.owners, ∃ r ∈ C05_Wiring.rows, r.cls = o ∧ r.byValue = true) := by
   decide
 
 /-! ## (iii') the stylesheet named by the xml-stylesheet processing instruction -/
